@@ -62,6 +62,10 @@ func init() {
 	}
 	intrinsics["bytes.Equal"] = func(ex *Exec, fr *Frame, in ssa.Instruction, fn *ssa.Function, args []Value, st *State, cont callCont) {
 		a, b := args[0].(*SliceV), args[1].(*SliceV)
+		if g, ok := eqBytesSegs(st, a, b); ok {
+			cont(st, fr, And(Eq(a.Len, b.Len), g))
+			return
+		}
 		cont(st, fr, And(Eq(a.Len, b.Len), ex.contentEq(st, a, b, a.Len)))
 	}
 	intrinsics["strconv.FormatInt"] = strRes
@@ -142,7 +146,27 @@ func (ex *Exec) builtin(fr *Frame, in ssa.Instruction, c *ssa.CallCommon, b *ssa
 		}
 		n := Ite(BVCmp("bvult", dst.Len, src.Len), dst.Len, src.Len)
 		et := c.Args[0].Type().Underlying().(*types.Slice).Elem()
+		// copy that fills a fresh (all-zero) local byte buffer completely: its content is src's
+		var newSegs []Seg
+		var trackID int64
+		track := false
+		if bt, ok := et.Underlying().(*types.Basic); ok && bt.Kind() == types.Uint8 {
+			if id, segs, ok := st.trackedWhole(dst); ok && len(segs) == 1 && segs[0].Zero != nil && st.sameLen(dst.Len, src.Len) {
+				newSegs = append([]Seg{}, st.segsOf(src)...)
+				trackID, track = id, true
+				n = dst.Len
+			}
+		}
+		if traceOn {
+			_, sg, ok := st.trackedWhole(dst)
+			fmt.Printf("COPYTRACK track=%v whole=%v nsegs=%d sameLen=%v dst.Len=%s src.Len=%s\n", track, ok, len(sg), st.sameLen(dst.Len, src.Len), st.resolveLen(dst.Len).SMT(), st.resolveLen(src.Len).SMT())
+		}
+		keepLen := st.regionLen[trackID]
 		ex.bulkCopy(st, in, et, dst, src, n, "copy")
+		if track {
+			st.setRegionSeq(trackID, newSegs)
+			st.setRegionLen(trackID, keepLen)
+		}
 		cont(st, fr, n)
 	case "delete":
 		m := args[0].(*Term)
@@ -187,6 +211,24 @@ const smallCopy = 300
 // bulkCopy copies n elements from src[0:] to dst[0:] with memmove semantics.
 func (ex *Exec) bulkCopy(st *State, in ssa.Instruction, et types.Type, dst, src *SliceV, n *Term, why string) {
 	nc := Subst(n, st.substMap())
+	if nc.IsConst() && nc.Val.Int64() == 0 {
+		return
+	}
+	// a write into a byte region whose content is tracked as segments invalidates the tracking
+	// (callers that know the new content set it again afterwards)
+	if len(st.regionSeq) > 0 {
+		if bt, ok := et.Underlying().(*types.Basic); ok && bt.Kind() == types.Uint8 {
+			if r := Subst(Rg(dst.Base), st.substMap()); r.IsConst() && r.Val.IsInt64() {
+				if _, tracked := st.regionSeq[r.Val.Int64()]; tracked {
+					st.setRegionSeq(r.Val.Int64(), nil)
+					st.setRegionLen(r.Val.Int64(), nil)
+				}
+			} else {
+				st.regionSeq = nil
+				st.regionLen = nil
+			}
+		}
+	}
 	if nc.IsConst() {
 		k := nc.Val.Int64()
 		if k == 0 {
@@ -257,7 +299,20 @@ func (ex *Exec) doAppend(fr *Frame, in ssa.Instruction, c *ssa.CallCommon, args 
 	fits := Subst(BVCmp("bvule", newLen, s.Cap), st.substMap())
 	inPlace := func(st *State, fr *Frame) {
 		dst := &SliceV{Base: s.Base, Off: BVBin("bvadd", s.Off, s.Len), Len: t.Len, Cap: t.Len}
+		var newSegs []Seg
+		var trackID int64
+		track := false
+		if bt, ok := et.Underlying().(*types.Basic); ok && bt.Kind() == types.Uint8 {
+			if id, segs, ok := st.trackedWhole(s); ok {
+				newSegs = append(append([]Seg{}, segs...), st.segsOf(t)...)
+				trackID, track = id, true
+			}
+		}
 		ex.bulkCopy(st, in, et, dst, t, t.Len, "append-inplace")
+		if track {
+			st.setRegionSeq(trackID, newSegs)
+			st.setRegionLen(trackID, newLen)
+		}
 		cont(st, fr, &SliceV{Base: s.Base, Off: s.Off, Len: newLen, Cap: s.Cap})
 	}
 	realloc := func(st *State, fr *Frame) {
@@ -276,6 +331,7 @@ func (ex *Exec) doAppend(fr *Frame, in ssa.Instruction, c *ssa.CallCommon, args 
 		ex.bulkCopy(st, nil, et, &SliceV{Base: base, Off: s.Len, Len: t.Len, Cap: t.Len}, t, t.Len, "append-grow")
 		if isBytes {
 			st.setRegionSeq(newID, segs)
+			st.setRegionLen(newID, newLen)
 		}
 		cont(st, fr, &SliceV{Base: base, Off: BVc(0, 64), Len: newLen, Cap: ncap})
 	}
@@ -308,18 +364,120 @@ func init() {
 
 // contentEq: a[i] == b[i] for all i < n (byte slices)
 func (ex *Exec) contentEq(st *State, a, b *SliceV, n *Term) *Term {
-	nc := Subst(n, st.substMap())
-	if nc.IsConst() && nc.Val.Int64() <= 64 {
+	return contentEqMem(st, st, a, b, n)
+}
+
+// eqBytesSegs: byte-wise equality of two byte slices (lengths compared by the caller), using the
+// segment representation of locally built buffers: a buffer assembled from literal bytes and from
+// pieces of other memory is compared piece by piece with the other slice; a piece that was copied
+// from the very memory it is compared with is equal as soon as the offsets agree (linear
+// arithmetic), otherwise its content is compared by a quantified formula.  The result is
+// EQUIVALENT to byte-wise equality (usable in both polarities).
+func eqBytesSegs(st *State, a, b *SliceV) (*Term, bool) {
+	norm := func(x []Seg) []Seg {
+		out := make([]Seg, len(x))
+		sm := st.substMap()
+		for i, g := range x {
+			if g.Lit != nil {
+				g.Lit = Subst(g.Lit, sm)
+			} else if g.Zero != nil {
+				g.Zero = Subst(g.Zero, sm)
+			} else {
+				g.Base, g.Off, g.Len = Subst(g.Base, sm), Subst(g.Off, sm), Subst(g.Len, sm)
+			}
+			out[i] = g
+		}
+		return out
+	}
+	sa, sb := norm(st.segsOf(a)), norm(st.segsOf(b))
+	single := func(x []Seg) bool { return len(x) == 1 && x[0].Arr != nil }
+	if traceOn {
+		_, _, w := st.trackedWhole(a)
+		fmt.Printf("EQBYTES a.rg=%s whole=%v na=%d nb=%d singleA=%v singleB=%v\n", Subst(Rg(a.Base), st.substMap()).SMT(), w, len(sa), len(sb), single(sa), single(sb))
+		if single(sa) && single(sb) {
+			ba := baseArrayFor(sa[0].Arr, Rg(sa[0].Base))
+			if ba.Op == "store" {
+				ub, ok := getRegionUB(Rg(sa[0].Base))
+				fmt.Printf("   TOPSTORE addr=%s rgA=%s ub=%d ok=%v cmp=%d\n", ba.Args[1].SMT(), Rg(sa[0].Base).SMT(), ub, ok, rgCompare(ba.Args[1].Args[0], Rg(sa[0].Base)))
+			}
+			fmt.Printf("   baseA=%s baseB=%s sameBase=%v\n", baseArrayFor(sa[0].Arr, Rg(sa[0].Base)).Short(), baseArrayFor(sb[0].Arr, Rg(sb[0].Base)).Short(), sa[0].Base == sb[0].Base)
+		}
+	}
+	if single(sa) && !single(sb) {
+		sa, sb = sb, sa
+		a, b = b, a
+	}
+	if !single(sb) || len(sa) == 0 || len(sa) > 64 {
+		return nil, false
+	}
+	if single(sa) && !(sa[0].Base == sb[0].Base && baseArrayFor(sa[0].Arr, Rg(sa[0].Base)) == baseArrayFor(sb[0].Arr, Rg(sb[0].Base))) {
+		return nil, false
+	}
+	m := sb[0]
+	pos := BVc(0, 64)
+	var conj []*Term
+	cur := st.mem.arr(BV(8), st.memGen)
+	_ = cur
+	for _, sg := range sa {
+		switch {
+		case sg.Lit != nil:
+			conj = append(conj, Eq(sg.Lit, Select(m.Arr, ElemAddr(m.Base, BVBin("bvadd", m.Off, pos)))))
+		case sg.Zero != nil:
+			return nil, false
+		default:
+			other := &SliceV{Base: m.Base, Off: BVBin("bvadd", m.Off, pos), Len: sg.Len, Cap: sg.Len}
+			this := &SliceV{Base: sg.Base, Off: sg.Off, Len: sg.Len, Cap: sg.Len}
+			gen := contentEqArr(sg.Arr, this, m.Arr, other, sg.Len)
+			if sg.Base == m.Base && baseArrayFor(sg.Arr, Rg(sg.Base)) == baseArrayFor(m.Arr, Rg(m.Base)) {
+				conj = append(conj, Or(Eq(sg.Off, other.Off), gen))
+			} else {
+				conj = append(conj, gen)
+			}
+		}
+		pos = BVBin("bvadd", pos, segLen(sg))
+	}
+	return And(conj...), true
+}
+
+// contentEqArr: n bytes of a in array arrA equal n bytes of b in array arrB (address-quantified)
+func contentEqArr(arrA *Term, a *SliceV, arrB *Term, b *SliceV, n *Term) *Term {
+	if n.IsConst() && n.Val.Int64() <= 64 {
 		var cs []*Term
-		for i := int64(0); i < nc.Val.Int64(); i++ {
-			cs = append(cs, Eq(st.loadScalar(BV(8), a.ElemAddr(BVc(i, 64))), st.loadScalar(BV(8), b.ElemAddr(BVc(i, 64)))))
+		for i := int64(0); i < n.Val.Int64(); i++ {
+			cs = append(cs, Eq(Select(arrA, a.ElemAddr(BVc(i, 64))), Select(arrB, b.ElemAddr(BVc(i, 64)))))
 		}
 		return And(cs...)
 	}
-	i := BoundVar("i$eq", BV(64))
-	arr := st.mem.arr(BV(8), st.memGen)
-	body := Implies(BVCmp("bvult", i, n), Eq(mk("select", BV(8), arr, a.ElemAddr(i)), mk("select", BV(8), arr, b.ElemAddr(i))))
-	return Forall([]*Term{i}, body)
+	x := BoundVar("a$eq", SAddr)
+	pa := Pa(x)
+	idx := BVBin("bvsub", mk("eidx", BV(64), pa), a.Off)
+	in := And(Eq(Rg(x), Rg(a.Base)), mk("(_ is elem)", SBool, pa), mkEqRaw(mk("ebase", SPath, pa), Pa(a.Base)), BVCmp("bvult", idx, n))
+	lhs := mk("select", BV(8), arrA, x)
+	body := Implies(in, Eq(lhs, mk("select", BV(8), arrB, b.ElemAddr(idx))))
+	return ForallPat([]*Term{x}, body, lhs)
+}
+
+// contentEqMem: the first n bytes of a (in state sa) equal the first n bytes of b (in state sb).
+// Symbolic n: quantified over ADDRESSES inside a (pattern: any read of a's memory), which the
+// solvers instantiate far more reliably than index-quantified formulas with offset arithmetic.
+func contentEqMem(sa, sb *State, a, b *SliceV, n *Term) *Term {
+	nc := Subst(n, sa.substMap())
+	if nc.IsConst() && nc.Val.Int64() <= 64 {
+		var cs []*Term
+		for i := int64(0); i < nc.Val.Int64(); i++ {
+			cs = append(cs, Eq(sa.loadScalar(BV(8), a.ElemAddr(BVc(i, 64))), sb.loadScalar(BV(8), b.ElemAddr(BVc(i, 64)))))
+		}
+		return And(cs...)
+	}
+	x := BoundVar("a$eq", SAddr)
+	arrA := sa.mem.arr(BV(8), sa.memGen)
+	arrB := sb.mem.arr(BV(8), sb.memGen)
+	pa := Pa(x)
+	idx := BVBin("bvsub", mk("eidx", BV(64), pa), a.Off)
+	in := And(Eq(Rg(x), Rg(a.Base)), mk("(_ is elem)", SBool, pa), mkEqRaw(mk("ebase", SPath, pa), Pa(a.Base)), BVCmp("bvult", idx, n))
+	lhs := mk("select", BV(8), arrA, x)
+	body := Implies(in, Eq(lhs, mk("select", BV(8), arrB, b.ElemAddr(idx))))
+	return ForallPat([]*Term{x}, body, lhs)
 }
 
 // havocFreshBytes: the content of a freshly allocated byte region is unknown (e.g. decoder output).
